@@ -15,7 +15,8 @@ PROPS["C16"] = {
     "claim": "For every pair (triple) of well-formed region names up to L bytes — all byte values, all lengths, any number of commas "
              "in the start key — sign(region.Compare(a,b)) equals the lexicographic order of (table, start key, id); Compare is "
              "antisymmetric, returns 0 only on identical names, is transitive; first regions and lookup search keys sort as the "
-             "statement says. Decided by the solver on every path of the real Compare/findCommaFromEnd.",
+             "statement says. Decided by the solver on every path of the real Compare/findCommaFromEnd."
+             " Also: fixed table, start keys of 8/9 (thorough 16/17) arbitrary bytes (compare_long_keys).",
     "outside": "names longer than L bytes (compare_long_keys: fixed table 't', start keys of KL-1 / KL arbitrary bytes, one-digit ids); malformed names (fewer than two commas: documented panic); ids containing a comma",
     "assumptions": ["names are well-formed: table and id non-empty, at least two commas, no comma in table or id"],
     "jobs": [
@@ -101,7 +102,8 @@ PROPS["C15"] = {
              "for chunk size CHUNK (below, equal to and above the payload), is written by compressCellblocks as one Hadoop block whose "
              "chunks hold exactly ChunkLen bytes except the last, and decompressCellblocks returns the identical bytes; every conforming "
              "server stream of up to B blocks x C chunks decompresses to the concatenated payload; a stream truncated inside a block "
-             "yields an error; arbitrary bytes never panic or spin.",
+             "yields an error; arbitrary bytes never panic or spin."
+             " Also: two concurrent senders through one compressor each write the compressed form of their own cells.",
     "outside": "golang/snappy itself and the real chunk size 218421 (the chunking arithmetic is checked for small symbolic chunk sizes); "
                "corruptions that no implementation can detect (snappy blocks carry no checksum; a multi-block stream cut at a block "
                "boundary is a valid shorter stream); payloads beyond the bound; allocations beyond ALLOC bytes",
@@ -146,14 +148,15 @@ PROPS["C08"] = {
 }
 
 PROPS["C01"] = {
-    "files": ["root/fakes.go", "root/c08_cache.go", "root/c01_routing.go", "root/c01_meta.go", "region/fakes.go", "region/c11_info.go"],
+    "files": ["root/fakes.go", "root/c08_cache.go", "root/c01_routing.go", "root/c09_establish.go", "root/c01_meta.go", "region/fakes.go", "region/c11_info.go"],
     "native_files": ["root/c01_meta_native.go"],
     "native_cuts": [{"file": "rpc.go", "from": "func (c *client) SendRPC(", "to": "func (c *client) SendRPCOrig("}],
     "claim": "For every cache content of K non-overlapping regions (tables t / tt / n:t, arbitrary start/stop keys up to KL bytes, any "
              "discovery order, inserted through the real put) and every (table, key up to KEYL arbitrary bytes), getRegionFromCache "
              "returns the unique cached region whose [start, stop) contains the key and nil otherwise (so hbase:meta is consulted, never "
              "a neighbour or a same-prefixed table); every single-row request kind is then given that region, that region's client, and "
-             "carries that region's name in its RegionSpecifier.",
+             "carries that region's name in its RegionSpecifier."
+             " Also: two lookups at once return each caller its own region without racing (route_concurrent); 5..6 gets over two regions in every order are filed under their own region in the multi-request (multi_region_assignment); lookupAllRegions / CacheRegions list a table in hbase:meta and establish every region on its listed server (list_regions, cache_regions).",
     "outside": "more than K cached regions; keys longer than KEYL bytes (in particular the 32 KiB search-key truncation); the protobuf wire "
                "encoding of the request structs (protobuf-go); the meta path is covered for one arbitrary meta row per lookup (meta_lookup)",
     "assumptions": ["cached regions do not overlap (C08 establishes that put preserves this)"],
@@ -166,6 +169,10 @@ PROPS["C01"] = {
          "preempts": {"quick": 2, "thorough": 3}, "params": {"quick": {"RACE": 1}, "thorough": {"RACE": 1}}},
         {"name": "addressing", "pkg": "root", "entry": "VerifAddressing", "reach": ["addressed"],
          "params": {"quick": {"KL": 2, "KEYL": 3}, "thorough": {"KL": 3, "KEYL": 4}}},
+        {"name": "cache_regions", "pkg": "root", "entry": "VerifCacheRegions", "reach": ["cached"], "steps": 40000,
+         "stubs": {"(*github.com/tsuna/gohbase.client).SendRPC": "github.com/tsuna/gohbase.vMetaSendRPC",
+                   "google.golang.org/protobuf/proto.Unmarshal": "github.com/tsuna/gohbase/region.vUnmarshal"},
+         "preempts": {"quick": 1, "thorough": 2}, "params": {"quick": {"FAULTS": 0, "RACE": 1}, "thorough": {"FAULTS": 0, "RACE": 1}}},
         {"name": "list_regions", "pkg": "root", "entry": "VerifListRegions", "reach": ["listed"],
          "stubs": {"(*github.com/tsuna/gohbase.client).SendRPC": "github.com/tsuna/gohbase.vMetaSendRPC",
                    "google.golang.org/protobuf/proto.Unmarshal": "github.com/tsuna/gohbase/region.vUnmarshal"},
@@ -187,7 +194,8 @@ PROPS["C07"] = {
     "claim": "For every batch of 1..N puts over 2 regions on 1 or 2 servers, every outcome sequence per call over {success, fatal, "
              "retry-later, not-serving, connection-dead, silent} for up to TRIES attempts, re-location failing for any call in any retry "
              "round, and cancellation at any round: res[i] is the last outcome of batch[i] (or that call's own location / context error), "
-             "a success is never overwritten, every slot ends with a response or an error, allOK iff all errors are nil.",
+             "a success is never overwritten, every slot ends with a response or an error, allOK iff all errors are nil."
+             " Also: one call of the batch with a context of its own that ends before / while the batch is with the servers: no other call carries its context error, the success flag agrees with the slots (sendbatch_own_contexts).",
     "outside": "batches larger than N; more than TRIES attempts per call; the real region client below SendBatch (C03/C02)",
     "assumptions": ["(*client).getRegionAndClientForRPC is cut: it returns the region/client of the harness layout or fails",
                     "fake region clients answer synchronously inside QueueBatch"],
@@ -234,7 +242,8 @@ PROPS["C06"] = {
              "symbolic [start, stop) incl. empty bounds and bounds equal to boundaries, forward and reversed, with and without partial "
              "results; per response a symbolic number of results, symbolic cuts of rows into partial fragments, heart-beats, an early "
              "'no more results'), the real scanner returns until io.EOF exactly the rows in range, in scan order, each once and with "
-             "all of its cells.",
+             "all of its cells."
+             " Also: a server that numbers scanners from 0; reversed scans over keys and region boundaries that end in zero bytes.",
     "outside": "more rows / regions / responses than the bounds; keys longer than one byte (the reversed 'closest row before' "
                "approximation with 8 x 0xff is exercised only for one-byte boundaries); the renew goroutine; scan metrics",
     "assumptions": ["the model server implements HBase's scan protocol as described in the harness (open / continue / close, "
@@ -261,7 +270,8 @@ PROPS["C14"] = {
              "exhaustion, Close() after j Next calls, a non-retryable error on the i-th request, cancellation before the j-th Next, the "
              "server declaring no more results while a region scanner is open — reports the error / cancellation exactly once and "
              "io.EOF from then on, Close is idempotent, and after all spawned goroutines have run the server has no scanner of this scan "
-             "left open.",
+             "left open."
+             " Also: a request error followed by cancellation; cancellation while a request is outstanding, then Next again; a request error comes together with the part of the row already assembled.",
     "outside": "lease expiry on the server; the renew loop; scans created with the internal CloseScanner option over more than one response",
     "assumptions": ["model server as in C06"],
     "jobs": [
@@ -279,7 +289,8 @@ PROPS["C18"] = {
     "claim": "For 1..CALLS requests on one connection, every assignment of {answered before Write returns, answered before the next "
              "request, answered late, never answered} to the requests: when the connection is quiescent the in-flight counter equals the "
              "number of written-and-unanswered requests and the read deadline is armed iff that number is > 0 (so a silent server is "
-             "detected by the read timeout of the last request, and an idle connection is never torn down by it).",
+             "detected by the read timeout of the last request, and an idle connection is never torn down by it)."
+             " Also: two senders overtaken by their responses at once; a connection dialled under a deadline and then idle carries no read or write deadline.",
     "outside": "the kernel's deadline behaviour and wall-clock latency; more than CALLS requests; multi-requests (counted like single calls)",
     "assumptions": ["responses are processed by receive() one at a time (single reader goroutine)",
                     "proto.Unmarshal is stubbed by the harness' decoding seam (native replay uses the real decoder on hand-encoded frames)"],
@@ -301,7 +312,8 @@ PROPS["C03"] = {
              "(k = 1..K symbolic over Read / Write / SetReadDeadline / SetWriteDeadline, failing writes with or without a partial "
              "write) or that is closed externally before / between / after the requests, with one unbatched call and a batch of two "
              "queued on it and a silent server, under every interleaving within the pre-emption bound: every request is completed "
-             "exactly once, with a ServerError; no client goroutine is left; later requests are refused at once with ErrClientClosed.",
+             "exactly once, with a ServerError; no client goroutine is left; later requests are refused at once with ErrClientClosed."
+             " Also: a sender blocked inside Write when the connection fails is released and both requests completed (failure_blocked_writer); the read time-out is armed whenever a request is outstanding (read_timeout_armed).",
     "outside": "more than K operations before the fault; data races between synchronisation points; responses arriving concurrently "
                "with the failure (C02/C18 cover response handling); contexts that end before the failure",
     "assumptions": ["pre-emption only at synchronisation points (channel ops, mutexes, sync.Once, atomics, connection calls); at most "
@@ -328,7 +340,8 @@ PROPS["C02"] = {
              "one multi-request over two regions (every grouping), answered with region results in request order, results inside a "
              "region in every order, any action as an exception, any region as a region exception, cells in the trailing cellblock in "
              "response order: each call receives the result carrying its index and exactly its cells. Concurrent registration yields "
-             "distinct call ids under every interleaving.",
+             "distinct call ids under every interleaving."
+             " Region-level exceptions of two regions are delivered each to the calls of its own region.",
     "outside": "more than CALLS calls; non-conforming responses (C11); flush timing of the batching goroutine (grouping is quantified "
                "directly); true parallel memory effects",
     "assumptions": ["responses are handled one at a time by the single reader goroutine",
@@ -356,6 +369,12 @@ PROPS["C15"]["jobs"].append(
     {"name": "compress_concurrent", "pkg": "region", "entry": "VerifCompressConcurrent", "stubs": FRAME_STUBS, "reach": ["two-compressing-senders"],
      "preempts": {"quick": 2, "thorough": 3}, "params": {"quick": {"RACE": 1}, "thorough": {"RACE": 1}}})
 
+# C12: the batching goroutine of the region client (order, exactly once) - same harness as C05's queue_flush
+PROPS["C12"]["files"] = PROPS["C12"]["files"] + ["region/c05_frames.go"]
+PROPS["C12"]["jobs"].append(
+    {"name": "queue_flush", "pkg": "region", "entry": "VerifQueueFlush", "stubs": FRAME_STUBS, "reach": ["flushed"], "max_ticks": 2,
+     "preempts": {"quick": 1, "thorough": 2}, "params": {"quick": {"CALLS": 3, "RACE": 1}, "thorough": {"CALLS": 4, "RACE": 1}}})
+
 # C01: the region a call is filed under inside a multi-request (needs the frame-level stubs of C05)
 PROPS["C01"]["files"] = PROPS["C01"]["files"] + ["region/c02_correlation.go", "region/c15_compressor.go", "region/c05_frames.go"]
 PROPS["C01"]["jobs"].append(
@@ -371,7 +390,8 @@ PROPS["C05"] = {
              "the method, a call id unique on the connection and registered for that request, the priority iff > 0 (no leak through the "
              "header pool), cell_block_meta.length = trailing cellblock; request rows / region names / associated_cell_count match the "
              "calls; cellblocks follow the order of the actions; two concurrent senders on a non-TCP net.Conn never interleave frames; "
-             "preamble and connection header first. The protobuf-struct content of each request kind is covered by C10/C01/C06.",
+             "preamble and connection header first. The protobuf-struct content of each request kind is covered by C10/C01/C06."
+             " Also: every option of Get / Scan / mutations is mapped to the request as the server reads it (get_fields, scan_fields, mutate_fields, time_options); a call re-sent after SetRegion names the new region; two compressing senders do not share buffers; the batching goroutine writes every queued call exactly once and in order whatever the flush timing (queue_flush).",
     "outside": "protobuf-go's wire encoding of the structs (a contract stub in the engine, the real encoder in native replay); kernel "
                "writev atomicity for TCP sockets; more than CALLS calls; scans and check-and-put frames (single-call path, same code)",
     "assumptions": ["proto.Size / MarshalAppend are a contract stub in the engine: fixed size, content = the message snapshot"],
@@ -390,6 +410,8 @@ PROPS["C05"] = {
          "params": {"quick": {"CALLS": 3}, "thorough": {"CALLS": 4}}},
         {"name": "compress_concurrent", "pkg": "region", "entry": "VerifCompressConcurrent", "stubs": FRAME_STUBS, "reach": ["two-compressing-senders"],
          "preempts": {"quick": 2, "thorough": 3}, "params": {"quick": {"RACE": 1}, "thorough": {"RACE": 1}}},
+        {"name": "queue_flush", "pkg": "region", "entry": "VerifQueueFlush", "stubs": FRAME_STUBS, "reach": ["flushed"], "max_ticks": 2,
+         "preempts": {"quick": 1, "thorough": 2}, "params": {"quick": {"CALLS": 3, "RACE": 1}, "thorough": {"CALLS": 4, "RACE": 1}}},
         {"name": "concurrent_senders", "pkg": "region", "entry": "VerifConcurrentSenders", "stubs": FRAME_STUBS, "reach": ["two-senders"],
          "preempts": {"quick": 2, "thorough": 3}, "params": {"quick": {"RACE": 1}, "thorough": {"RACE": 1}}},
         {"name": "hello", "pkg": "region", "entry": "VerifHello", "reach": ["hello"], "params": {"quick": {"protoMax": 3}, "thorough": {"protoMax": 6}}},
@@ -402,7 +424,8 @@ PROPS["C20"] = {
              "put returns the connection held for the address unless it was declared dead (clientDown), opens one otherwise, and never "
              "crosses addresses. R regions of one address established concurrently by the real establishRegion (every interleaving "
              "within the bound) create one region client; later regions reuse it; another address gets its own. CALLERS concurrent Dial "
-             "calls on a real region client dial once and all see that outcome.",
+             "calls on a real region client dial once and all see that outcome."
+             " Also: a connection the dialer hands out after the dial context expired is closed with its region client; a region client reports the address it was created with (six spellings).",
     "outside": "address aliasing (one server under two names); more than R regions / CALLERS callers; data races",
     "assumptions": ["fake region clients at the hrpc.RegionClient seam for the establisher harness (probe always answered)"],
     "jobs": [
@@ -430,7 +453,8 @@ PROPS["C09"] = {
              "FAULTS misbehaviours (meta: table gone / region replaced by a newer one; dial failure; probe answered not-serving, "
              "server-error or retry-later) followed by a stable cluster, with or without a known address: no panic (in particular no "
              "second MarkAvailable = close of nil channel), the establisher terminates, the region's waiters are released, no live "
-             "cached region is left unavailable or without a connection, no goroutine is left.",
+             "cached region is left unavailable or without a connection, no goroutine is left."
+             " Also: a region evicted (successor discovered) while its establisher is inside Dial or the probe: its waiters are released and the waiting request completes against the successor.",
     "outside": "data races other than the ones the engine's happens-before analysis sees on the explored schedules (RACE=1 jobs: vector "
                "clocks over mutex/RWMutex/channel/Once/WaitGroup/atomic/Pool/context/timer/go edges; unordered conflicting loads, stores and "
                "map operations in repository code are candidates, reported only when Go's own race detector confirms the same pair of "
@@ -460,7 +484,8 @@ PROPS["C04"] = {
              "misbehaviours (request answered not-serving / server-error / retry-later, dial failure, probe failures, hbase:meta "
              "listing a replacement region or no table) followed by a stable cluster: the request returns success, or TableNotFound "
              "when the table was removed, never a retryable error; afterwards no live cached region is unavailable. Every recovery step "
-             "of establishRegion is covered by the C09 establish job.",
+             "of establishRegion is covered by the C09 establish job."
+             " Also: exceptions are classified by the class the server names, whatever the stack trace mentions; Get/Put/Delete/Append/Increment/CheckAndPut hand back what the server answered and an application error unchanged (public_api); every exit of establishRegion for scripts of 2..4 faults (establish_faults).",
     "outside": "NOT CLAIMED: the liveness statement for arbitrary finite fault sequences (only scripts of up to FAULTS faults are "
                "explored); administrative calls when the master moves; classification of exception class names (checked at the "
                "region level in C11's receive jobs for the listed classes)",
@@ -493,7 +518,8 @@ PROPS["C17"] = {
              "through cancellation, with the context's error; 17 consecutive calls reproduce the closed-form schedule. For a single "
              "request and for a batch, every sequence of ATTEMPTS answers over {retry-later, connection-dead, not-serving}: each "
              "retry-later answer is followed by one wait, waits follow the schedule in order, at most two connection-level failures "
-             "are retried without a wait.",
+             "are retried without a wait."
+             " Also: the formula under a context with a deadline; the real lookupRegion and lookupAllRegions loops against a failing / silent ZooKeeper and a failing hbase:meta: one wait per failed attempt, on the schedule.",
     "outside": "wall-clock accuracy of time.After; request rate as a real-time quantity; more than ATTEMPTS consecutive failures; the "
                "lookups that time out inside hbase:meta scans (lookup_pacing: ZooKeeper failing or silent; lookup_all_pacing: hbase:meta failing)",
     "assumptions": ["time.After is modelled: it records the requested duration and may fire at any later scheduling point",
@@ -531,7 +557,8 @@ PROPS["C19"] = {
     "claim": "Close (twice) issued at every scheduling point within the delay bound relative to a request that waits on a region whose "
              "establisher is before / during / after its lookup, dial and probe (region cached or unknown, address known or not): the "
              "request returns success or ErrClientClosed; every region client ever created is closed; no goroutine remains; later "
-             "single and batched calls for cached and unknown regions return ErrClientClosed without opening connections.",
+             "single and batched calls for cached and unknown regions return ErrClientClosed without opening connections."
+             " Also: lookups that do not notice Close (ZooKeeper-based); a scanner renewing its lease in the background stops at the first refused renewal.",
     "outside": "more than one request in flight; the admin (master) client; ZooKeeper lookups (cut); pre-emption inside non-synchronising code",
     "assumptions": ["(*client).lookupRegion is cut: after Close it answers ErrClientClosed as the real meta lookup does through SendRPC"],
     "jobs": [
@@ -551,7 +578,8 @@ PROPS["C13"] = {
              "connection with an establisher that never finishes, queued on a silent server, back-off sleep, unknown region behind a "
              "silent ZooKeeper (real lookupRegion / metaLookup / scanner / zkLookup), busy send queue of the real region client — and "
              "return the context error (the batch: failed, every unanswered call marked) after the context of the request, of the batch "
-             "or of the calls (shared or distinct) is cancelled, with no further blocking.",
+             "or of the calls (shared or distinct) is cancelled, with no further blocking."
+             " A single request also for deadline expiry (deadline_single).",
     "outside": "the numeric delay; deadline expiry of batches and scans (explored for the single request only: deadline_single); goroutines blocked "
                "inside the kernel (conn.Write); states reachable only through fault scripts longer than one fault",
     "assumptions": ["a goroutine blocked inside the ZooKeeper client library is left behind (outside the client's control)"],
